@@ -32,7 +32,7 @@ fn mix_for(prop: &str, a: &Args) -> Mix {
         _ => Mix {
             micro: m(if q { 96_000 } else { 3_000_000 }),
             structured: m(if q { 12_000 } else { 320_000 }),
-            long_lens: if q { vec![300, 700, 1_100, 2_100, 4_200, 9_000, 33_000] } else { vec![300, 500, 700, 1_100, 1_600, 2_100, 3_000, 4_200, 6_000, 9_000, 17_000, 33_000, 66_000, 70_000] },
+            long_lens: if q { vec![300, 700, 1_100, 2_100, 4_200, 9_000, 33_000, 66_000, 70_100] } else { vec![300, 500, 700, 1_100, 1_600, 2_100, 3_000, 4_200, 6_000, 9_000, 17_000, 33_000, 66_000, 70_000, 79_000] },
         },
     }
 }
